@@ -23,6 +23,8 @@ def parse_res(real):
     """-> ('panic', msg) | ('i', int) | ('f', float|nan)"""
     if real.startswith("panic "):
         return ("panic", real[6:])
+    if not real.startswith("ok "):
+        return ("other", real)        # e.g. a compiled program that did not build or print a number
     parts = real.split(" ")
     if len(parts) == 2:          # "ok N" (int-only ops)
         return ("i", int(parts[1]))
@@ -38,7 +40,11 @@ def oracle_case(req, real):
     kind is 'float-mod-rounds-to-divisor' for the recorded finding class, 'violation' otherwise,
     'excluded' for the carved-out MIN // -1 point (not a failure)."""
     _, op, a_s, b_s = req.split(" ")
+    if op.startswith("prog_"):
+        op = op.split("_", 2)[2]      # the operator inside a compiled program: same meaning as the wrapper
     res = parse_res(real)
+    if res[0] == "other":
+        return ("violation", f"no arithmetic result: {real!r}")
     if op in ("modcore", "fdivcore", "pymod_i64", "pyfloordiv_i64"):
         a, b = int(a_s), int(b_s)
         is_floor = op in ("fdivcore", "pyfloordiv_i64")
